@@ -137,6 +137,13 @@ def oracle_backend(stack, x, consts, fw, out):
         probs.append(f"output shape {getattr(out, 'shape', None)} != ({M},1)")
         return probs
     n = len(stack)
+    if out.dtype.kind != "f":
+        probs.append(f"output has dtype {out.dtype} (not real floating point): {out.ravel().tolist()[:3]!r}")
+        return probs
+    for i, v in enumerate(fw):
+        if isinstance(v, complex) or np.iscomplexobj(v):
+            probs.append(f"stack row {i} ({G.NAMES[stack[i][0]]}) evaluated to a complex value {v!r}")
+            return probs
     for r in range(M):
         vals = [row_val(v, r) for v in fw]
         for i, (node, p1, p2) in enumerate(stack):
@@ -258,7 +265,9 @@ def run(ctx, rep):
                     rep.count("finite_output")
             if status == "other":
                 rep.violate("well-formed stack raised a non-arithmetic exception in the backend", "C01:backend-exception", case)
-            # ---- correspondence lines
+            # ---- correspondence lines (rows that are not real numbers have no counterpart in the model: already reported above)
+            if status == "ok" and any(isinstance(v, complex) or np.iscomplexobj(v) for v in fw):
+                continue
             if ctx.driver_ok:
                 ss, cs = stack_str(stack_l), kconst_str(consts)
                 for r in range(M):
